@@ -48,7 +48,7 @@ class FnTranslator:
             return '(%d : Int)' % e.value
         if isinstance(e, ast.Name):
             if e.id in local:
-                return e.id
+                return local[e.id]            # a parameter, or the expression a local was assigned (substituted)
             return self.const(e.id)
         if isinstance(e, ast.Attribute):
             if isinstance(e.value, ast.Name) and e.value.id == 'self':
@@ -131,7 +131,9 @@ class FnTranslator:
             return pad + '.error "%s"' % exc
         if isinstance(s, ast.Assign) and len(s.targets) == 1 and isinstance(s.targets[0], ast.Name):
             nm = s.targets[0].id
-            return pad + 'let %s : Int := %s\n' % (nm, self.expr(s.value, local)) + self.block(rest, local | {nm}, indent)
+            # locals are SUBSTITUTED into their uses (no `let`): the generated term does not depend on which intermediate
+            # results the Python names (harmless rewrite C07-1 named the bin size and broke the proofs that unfold the definitions)
+            return self.block(rest, {**local, nm: self.expr(s.value, local)}, indent)
         if isinstance(s, ast.If):
             c = self.cond(s.test, local)
             then = self.block(s.body, local, indent + 1)
@@ -142,7 +144,7 @@ class FnTranslator:
         raise Untranslatable(ast.dump(s))
 
     def translate(self):
-        local = set(self.params)
+        local = {p: p for p in self.params}
         body = self.block(self.node.body, local, 1)
         params = self.self_params + self.params
         ret = 'Except String Int' if self.raises else 'Int'
